@@ -237,7 +237,7 @@ def est_cases(draw):
             kind = "disjoint" if i == 1 else draw(st.sampled_from(["mut", "gapcopy"]))
         kinds.append(kind)
         if kind == "mut":
-            rate = draw(st.sampled_from(["none", "low", "low", "mid", "mid", "high"]))
+            rate = draw(st.sampled_from(["low", "mid", "mid", "high", "low", "none"]))
             alpha = SUB_MASKS[rate] + (NOISE_MASKS[noise] if mode != "exact075" else "")
             seq = apply_mask(base, draw(_text(alpha, L)))
         elif kind == "copy":
@@ -797,8 +797,8 @@ def exec_upgma(case) -> Soft:
 
 
 SUBS = [
-    Sub("estimators", exec_est, strategy=est_cases(), quick=800, thorough=16 * 8000, shards_quick=16, weight=4.0),
-    Sub("nj", exec_nj, strategy=nj_cases(), quick=1200, thorough=16 * 12000, shards_quick=8),
+    Sub("estimators", exec_est, strategy=est_cases(), quick=1000, thorough=16 * 8000, shards_quick=16, weight=4.0),
+    Sub("nj", exec_nj, strategy=nj_cases(), quick=1500, thorough=16 * 12000, shards_quick=8),
     Sub("upgma", exec_upgma, strategy=upgma_cases(), quick=800, thorough=16 * 8000, shards_quick=8),
 ]
 
